@@ -10,11 +10,13 @@ import (
 	"encoding/json"
 	"fmt"
 	"io"
+	"net/http"
 	"strings"
 
 	netty "github.com/go-netty/go-netty"
 	"github.com/go-netty/go-netty/codec/format"
 	"github.com/go-netty/go-netty/codec/frame"
+	"github.com/go-netty/go-netty/codec/xhttp"
 	"github.com/go-netty/go-netty/zz_verif/explore"
 	"github.com/go-netty/go-netty/zz_verif/hlib"
 	"github.com/go-netty/go-netty/zz_verif/mock"
@@ -80,6 +82,17 @@ var carriers = map[string]carrier{
 		return o
 	}},
 	"*strings.Reader": {"*strings.Reader", false, func(b []byte) any { return strings.NewReader(string(b)) }},
+	// only with the http-client pipeline: a body-less request carrying b in a header (well below net/http's 4 KiB write buffer)
+	"*http.Request": {"*http.Request", false, func(b []byte) any { return httpReq(b) }},
+}
+
+func httpReq(b []byte) *http.Request {
+	r, err := http.NewRequest("GET", "http://example.test/m", nil)
+	if err != nil {
+		panic(err)
+	}
+	r.Header.Set("X-Body", hex.EncodeToString(b))
+	return r
 }
 
 // ---- pipelines ----
@@ -113,6 +126,13 @@ var pipes = map[string]pipe{
 		n := binary.PutUvarint(h[:], uint64(len(j)))
 		return append(append([]byte{}, h[:n]...), j...)
 	}},
+	"http-client": {"http-client", func() []netty.Handler {
+		return []netty.Handler{xhttp.ClientCodec()}
+	}, func(b []byte) []byte {
+		var buf bytes.Buffer
+		httpReq(b).Write(&buf) // net/http's own serialisation is the reference
+		return buf.Bytes()
+	}},
 	"varint": {"varint", func() []netty.Handler {
 		return []netty.Handler{frame.VarintLengthFieldCodec(1 << 20)}
 	}, func(b []byte) []byte {
@@ -127,6 +147,7 @@ type msg struct {
 	carrier string
 	size    int
 	frame   []byte
+	body    []byte // set when the body cannot be cut out of the frame
 	err     error
 	done    bool
 }
@@ -190,13 +211,20 @@ func scenario(cfg hlib.ChanCfg, p pipe, plan [][]string, sizes [][]int, bound in
 							}
 						}
 					}
-					ms = append(ms, &msg{id: id, carrier: c, size: sizes[i][j], frame: p.frame(body)})
+					m := &msg{id: id, carrier: c, size: sizes[i][j], frame: p.frame(body)}
+					if p.name == "http-client" {
+						m.body = body
+					}
+					ms = append(ms, m)
 					id++
 				}
 				o.msgs = append(o.msgs, ms)
 				ths = append(ths, vsched.Go(fmt.Sprintf("w%d", i+1), func() {
 					for _, m := range ms {
 						body := m.frame
+						if m.body != nil {
+							body = m.body
+						}
 						switch p.name {
 						case "delimiter+text":
 							body = body[:len(body)-1]
@@ -324,6 +352,7 @@ func build(tier string) []*explore.Scenario {
 		{"prepender2", [][]string{{"[][]byte"}, {"[][]byte", "[][]byte"}}, [][]int{{10}, {12, 10}}},
 		{"varint", [][]string{{"[][]byte"}, {"[][]byte", "string"}}, [][]int{{10}, {12, 10}}},
 		{"prepender2", [][]string{{"*bytes.Buffer"}, {"*bytes.Buffer", "*strings.Reader"}}, [][]int{{10}, {12, 10}}},
+		{"http-client", [][]string{{"*http.Request"}, {"*http.Request", "*http.Request"}}, [][]int{{10}, {600, 10}}},
 	}
 	if tier == "thorough" {
 		plans = append(plans,
@@ -342,7 +371,7 @@ func build(tier string) []*explore.Scenario {
 func main() {
 	explore.Main(explore.Spec{
 		Property:    "C09",
-		Rule:        "all interleavings up to the preemption bound of 2 (thorough 3) goroutines calling Channel.Write with 1-2 messages each; head-of-pipeline carriers []byte, [][]byte, *bytes.Buffer, *bytes.Reader, single-write and multi-write io.WriterTo, plain io.Reader (<=1024, >1024, fragmenting), string via the text codec; pipelines none, delimiter+text (README), length-field prepender, varint; sizes 10/1024/1025/2500; sync, aq(2,B), aq(4,B); oracle: the wire parses into whole frames; distinct = distinct (write-size sequence, wire hash) observations",
+		Rule:        "all interleavings up to the preemption bound of 2 (thorough 3) goroutines calling Channel.Write with 1-2 messages each; head-of-pipeline carriers []byte, [][]byte, *bytes.Buffer, *bytes.Reader, single-write and multi-write io.WriterTo, plain io.Reader (<=1024, >1024, fragmenting), string via the text codec; pipelines none, delimiter+text (README), length-field prepender, varint, varint+json, the HTTP client codec with *http.Request messages; sizes 10/1024/1025/2500; sync, aq(2,B), aq(4,B); oracle: the wire parses into whole frames; distinct = distinct (write-size sequence, wire hash) observations",
 		Assume:      []string{"sequentially consistent interleavings", "known findings are keyed by pipeline/carrier class (see known_findings.json); every other carrier must stay contiguous"},
 		Build:       build,
 		MinOutcomes: 2,
